@@ -237,6 +237,11 @@ impl Expected {
             if free.iter().any(|p| k.starts_with(p)) {
                 continue;
             }
+            // Debug renderings and other `dbg` observations are never pinned by
+            // the model unless it lists them explicitly
+            if k.split('.').any(|seg| seg == "dbg") {
+                continue;
+            }
             out.push(format!("{k}: got {}, the model expects no such result", a.render()));
             if out.len() >= 8 {
                 break;
